@@ -214,7 +214,8 @@ def run(ctx):
 
 def categorize(x):
     got = x["got"]
-    want = min(x["want"], key=lambda w: len(flat_diff(w, got)))   # the closest of the alternatives the property leaves open
+    # the closest of the alternatives the property leaves open (ties: the one that substitutes iff the real code did)
+    want = min(x["want"], key=lambda w: (len(flat_diff(w, got)), w["resp"]["v4"].startswith("sub:") != got["resp"]["v4"].startswith("sub:")))
     wv4, gv4 = want["resp"]["v4"], got["resp"]["v4"]
     t = x["req"]["t"]
     if wv4.startswith("sub:") and gv4.startswith("sub:") and wv4 != gv4:
